@@ -9,6 +9,18 @@ Open Scope string_scope.
 Open Scope list_scope.
 Open Scope nat_scope.
 
+(* READING GUIDE.  The mixin's wrappers resolve a name and delegate; in the model `gen_alias_step am o s` is DEFINED as
+   `step (resolve_op am o) s` and `alias_getitem` as `getitem (resolve_key am k)`.  C18_alias_run_twin, C18_alias_op_eq_root_op,
+   C18_alias_read_eq_root_read, C18_alias_getattr_eq_root, C18_alias_update_keeps_working, C18_alias_strict_blocks_new_attributes
+   therefore unfold that definition (plus idempotence of `resolve`): they are kept for reference and do NOT by themselves cover a
+   clause.  The substantive results are: the shorten_* family and C18_resolve_is_chain_end (what __init__ computes), the
+   *_canonical_twin theorems (the twin is defined from the DECLARATION alone, so they rest on the former), no-extra-storage, the
+   hooks, reindex, and the export theorems.  RE-ENTRY: the base class calls self[...] / self.__setattr__ again from nbytes, reindex,
+   to_dataframe (modelled: nbytes_of (resolve am), reindex_with (resolve am), export through resolve) and from the values setter and
+   replace_values (NOT modelled as a second resolution: it is the identity unless an alias is named like a variable, by
+   C18_resolve_idempotent / C18_resolve_not_alias; that class is the kept finding, where K is silent for such histories and only the
+   twin oracle speaks).  ORACLE ONLY (no theorem): "generated solution code sees the same data" (a solve() of an equation written
+   through aliases is compared with the twin's); copy() (the model has no identity of objects; reindex has theorems). *)
 (* ---------------------------------------------------------------- __init__: chains of aliases *)
 (* follow n a x = the name reached from x after n look-ups a.get(., .).  Acyclic declaration (self-maps apart, every
    chain leaves the alias names): accepted; the stored map keeps exactly the non-trivial aliases, is unchained, and sends
@@ -103,14 +115,18 @@ Section C18.
     WFam am -> In x (op_names (resolve_op am o)) -> ~ In x (akeys (amap am)).
   Proof. exact (twin_ops_mention_no_alias am o x). Qed.
 
-  Theorem C18_alias_run_inv am ops s : Inv s -> Inv (alias_run am ops s).
+  (* (in_scope: see Props/C09.v; it is about the RESOLVED operations - an alias of `span` is an assignment to `span`) *)
+  Theorem C18_alias_run_inv am ops s :
+    Forall (in_scope (kind s)) (map (resolve_op am) ops) -> Inv s -> Inv (alias_run am ops s).
   Proof. exact (alias_run_inv pycast arrcast infer astype_dt itemseq_exn am ops s). Qed.
 
-  Theorem C18_alias_run_one_cell_per_period am ops s : Forall wf_key_op ops -> InvD s -> InvD (alias_run am ops s).
+  Theorem C18_alias_run_one_cell_per_period am ops s :
+    Forall wf_key_op ops -> Forall (in_scope (kind s)) (map (resolve_op am) ops) -> InvD s -> InvD (alias_run am ops s).
   Proof. exact (alias_run_invD pycast arrcast infer astype_dt itemseq_exn am ops s). Qed.
 
   (* ---------------------------------------------------------------- no additional storage *)
   Theorem C18_alias_no_extra_storage am ops s k :
+    Forall (in_scope (kind s)) (map (resolve_op am) ops) ->
     In k (akeys (amap am)) -> assoc k (vars s) = None -> ~ In k (index s) ->
     (forall v dt, ~ In (AddVariable k v dt) ops) ->
     assoc k (vars (alias_run am ops s)) = None /\ ~ In k (index (alias_run am ops s)).
@@ -118,6 +134,7 @@ Section C18.
 
   (* the index grows only by the names of accepted add_variable calls *)
   Theorem C18_run_index ops s x :
+    Forall (in_scope (kind s)) ops ->
     In x (index (run ops s)) -> In x (index s) \/ exists v dt, In (AddVariable x v dt) ops.
   Proof. exact (run_index pycast arrcast infer astype_dt itemseq_exn ops s x). Qed.
 
@@ -316,6 +333,32 @@ Theorem C18_preferred_title am :
   Forall2 (fun c' t => c' = c -> t = p) cols titles.
 Proof. exact (preferred_title am). Qed.
 
+(* every selection of columns (status / iterations / internal variables in or out): never raises, one column per exported variable;
+   only renames under the same hypothesis *)
+Theorem C18_export_cols_total am :
+  WFam am -> NoDup (akeys (amap am)) ->
+  forall cols, exists l, export_cols am cols = Ret l /\ length l = length cols.
+Proof. exact (export_cols_total am). Qed.
+
+Theorem C18_export_cols_rename_only am :
+  WFam am -> NoDup (akeys (amap am)) ->
+  forall cols, NoDup cols -> (forall c, In c cols -> ~ In c (akeys (amap am))) ->
+  exists l, export_cols am cols = Ret l /\ map snd l = cols /\ NoDup (map fst l) /\
+    Forall2 (fun c t => t = c \/ In (t, c) (amap am)) cols (map fst l).
+Proof. exact (export_cols_rename_only am). Qed.
+
+(* kept finding: an alias named like an attribute of the object - the write reaches the variable, the attribute (what an attribute
+   read returns) does not change *)
+Theorem C18_alias_named_like_attribute_refuted :
+  exists am s v,
+    alias_construct [("lags", "X")] [] = Ret am /\ WFam am /\ Inv s /\
+    reg_mem "lags" (registry s) = true /\ assoc "lags" (adict s) = Some (OScalar (PInt 0)) /\
+    snd (alias_step am (SetAttr "lags" v None) s) = Ret tt /\
+    assoc "X" (vars (fst (alias_step am (SetAttr "lags" v None) s))) <> assoc "X" (vars s) /\
+    assoc "lags" (adict (fst (alias_step am (SetAttr "lags" v None) s))) = Some (OScalar (PInt 0)) /\
+    alias_getitem am (KName "lags") (fst (alias_step am (SetAttr "lags" v None) s)) = Ret [PFlt (FHalf 10); PFlt (FHalf 10); PFlt (FHalf 10)]%Z.
+Proof. exact alias_named_like_attribute_refuted. Qed.
+
 (* kept finding (known_findings.d/C18.json): an alias named like an existing variable *)
 Theorem C18_alias_named_like_variable_refuted :
   exists am s l,
@@ -372,6 +415,10 @@ Print Assumptions reindex_mA.
 Print Assumptions C18_export_total.
 Print Assumptions C18_export_rename_only.
 Print Assumptions C18_preferred_title.
+Print Assumptions C18_export_cols_total.
+Print Assumptions C18_export_cols_rename_only.
+Print Assumptions C18_alias_named_like_attribute_refuted.
+Print Assumptions export_with_selections.
 Print Assumptions C18_alias_named_like_variable_refuted.
 Print Assumptions chain3_hypotheses.
 Print Assumptions cycle_hypothesis.
